@@ -129,4 +129,9 @@ CLAIMS = {
         "collision-freedom is NOT assumed except in C12_corrupt_hashed (one pair); harness and reference walk. No axioms.",
    technique="Coq proof (round trip, integrity for all inputs, truncation, corruption, header) + exhaustive-position differential correspondence",
    ref="5/C12"),
+ "C11": dict(
+   text="Coq: C11_terminates — on a content-addressed (acyclic) token store whose tokens cite at most K proofs, with fuel need K (rank inv) + 1 the model of validator.Access never answers 'out of fuel', for EVERY token content, descriptor and context: the Claim/Validate/VerifySession/Claim and Authorize/Authorize recursion is bounded (the proof uses the exclusion of the token under verification from its own candidate attestations, i.e. the repaired code; the pinned recursion diverged); C11_run_total / C11_execute_total (every invocation gets a receipt, a batch yields a report or an error value), C11_receipts_kept (a produced response contains the receipt of every invocation of the request, for any completion order), C11_signature_total and C11_did_string_total (signature.Size/Raw and DID.String are total on all byte strings / DID values). Tie/search: requests run one at a time in a CHILD PROCESS (a panic in an un-recovered goroutine or a stack overflow is seen as the death of the child for that request): 7 positions x 33 field alterations, random pairs, nested/mutually attesting sessions with non-key issuers, a validly signed token with undefined issuer — the receipt class of every invocation must equal the model's — plus raw mutations of a valid CAR body (crash observation only). PARTIAL: theorems start at decoded blocks; third-party byte parsers and resource exhaustion are outside the model.",
+   note='Model starts at decoded tokens; CAR/CBOR/CID parsing by third-party code is only exercised (raw stream). Acyclicity of the proof graph = SHA-256 collision freedom. Validator/server model assumptions as for C01/C08. Requires the C11 fix commits (DID.String guard, signature bounds, empty capability list, self-attestation exclusion, InvocationCapabilityError struct). No axioms.',
+   technique='Coq proof (termination measure for the validator recursion; totality of the partial byte operations) + child-process crash observation on field-alteration product and raw mutations, receipt classes compared with the model',
+   ref='5/C11'),
 }
